@@ -269,7 +269,14 @@ fn main() {
     rep.count_n("random_worlds_discarded_invalid", discarded as u64);
     rep.count_n("random_worlds_gave_up", gave_up as u64);
 
-    rep.extra.insert("per_backend".into(), json!(st.per));
+    // flat keys so that the python side can add the shards up
+    let mut flat: BTreeMap<String, u64> = BTreeMap::new();
+    for (b, m) in &st.per {
+        for (k, n) in m {
+            flat.insert(format!("{b}.{k}"), *n);
+        }
+    }
+    rep.extra.insert("per_backend".into(), json!(flat));
     rep.extra.insert("panic_signatures".into(), json!(st.sigs));
     rep.extra.insert("panic_signatures_under_exclusion".into(), json!(st.excluded_sigs));
     if let Some(dir) = cli_dir {
